@@ -2,21 +2,21 @@
 from oracles import treedec
 
 
-def mkgraph(n, edges):
-    g = {i: set() for i in range(n)}
+def mkgraph(n, edges, order=None):
+    g = {i: set() for i in (order if order is not None else range(n))}
     for u, v in edges:
         g[u].add(v)
         g[v].add(u)
     return g
 
 
-def run(n, edges, tw):
+def run(n, edges, tw, order=None):
     """returns list of problems; tw: exact treewidth supplied by the caller's oracle"""
     from fggs import factorize as F
     problems = []
     for method in ('min_fill', 'quickbb', 'acb'):
         try:
-            t = F.tree_decomposition(mkgraph(n, edges), method=method)
+            t = F.tree_decomposition(mkgraph(n, edges, order), method=method)
         except Exception as e:    # noqa
             problems.append((method, f'exception {type(e).__name__}: {e}'))
             continue
@@ -29,7 +29,7 @@ def run(n, edges, tw):
             problems.append((method, f'width {w} below the treewidth {tw}?'))
         if method in ('quickbb', 'acb') and w != tw:
             problems.append((method, f'width {w} but treewidth is {tw}'))
-    g = mkgraph(n, edges)
+    g = mkgraph(n, edges, order)
     snapshot = {k: set(v) for k, v in g.items()}
     ub, order = F.min_fill(g)
     if g != snapshot:
@@ -40,10 +40,10 @@ def run(n, edges, tw):
         problems.append(('min_fill', f'reports width {ub} but its order has width {treedec.order_width(n, edges, order)}'))
     if n and ub < tw:
         problems.append(('min_fill', f'upper bound {ub} below treewidth {tw}'))
-    lb = F.minor_min_width(mkgraph(n, edges))
+    lb = F.minor_min_width(mkgraph(n, edges, order))
     if n and lb > tw:
         problems.append(('minor_min_width', f'lower bound {lb} above treewidth {tw}'))
-    qub, qorder = F.quickbb(mkgraph(n, edges))
+    qub, qorder = F.quickbb(mkgraph(n, edges, order))
     if n:
         if qub != tw:
             problems.append(('quickbb', f'returns width {qub} but treewidth is {tw}'))
